@@ -40,6 +40,8 @@ func init() {
 	operations["seq.ops"] = opSeqOps
 	generators["C05"] = genList
 	generators["C15"] = genFuzz
+	generators["C14"] = genHuge
+	operations["huge"] = opHuge
 	generators["C06"] = genDiskScan
 	generators["C07"] = genDiskFind
 	operations["disk.scan"] = opDiskScan
